@@ -256,7 +256,9 @@ class ExecBase:
         if k == "bool":
             return V.is_B(z)
         if k == "str":
-            return z3.And(V.is_S(z), slen(V.s(z)) >= 0)
+            from .sym import str_canonical
+
+            return z3.And(V.is_S(z), slen(V.s(z)) >= 0, str_canonical(V.s(z)))
         if k == "None":
             return z == NONE
         if th.name == "Optional":
